@@ -23,7 +23,7 @@ Definition MIN_Y := -5879611.  Definition MIN_M := 6.  Definition MIN_D := 23.  
 Definition MAX_Y := 5879611.   Definition MAX_M := 7.  Definition MAX_D := 12.  Definition MAX_DOY := 193.
 
 Definition validate_date (year month day : Z) : res unit :=
-  if year =? 0 then Err (EOor NYear MIN_Y MAX_Y year)
+  if year =? 0 then Err (EOor NYearZero MIN_Y MAX_Y year)
   else if year <? MIN_Y then Err (EOor NYear MIN_Y MAX_Y year)
   else if (year =? MIN_Y) && (month <? MIN_M) then Err (EOor NMonth MIN_M 12 month)
   else if (year =? MIN_Y) && (month =? MIN_M) && (day <? MIN_D) then Err (EOor NDay MIN_D 30 day)
@@ -33,7 +33,7 @@ Definition validate_date (year month day : Z) : res unit :=
   else Ok tt.
 
 Definition validate_doy (year doy : Z) : res unit :=
-  if year =? 0 then Err (EOor NYear MIN_Y MAX_Y year)
+  if year =? 0 then Err (EOor NYearZero MIN_Y MAX_Y year)
   else if year <? MIN_Y then Err (EOor NYear MIN_Y MAX_Y year)
   else if (year =? MIN_Y) && (doy <? MIN_DOY) then Err (EOor NDoy MIN_DOY 365 doy)
   else if MAX_Y <? year then Err (EOor NYear MIN_Y MAX_Y year)
